@@ -203,12 +203,18 @@ func runC11World(r *Run, seed int64, nReq int) {
 		q.amount = pick(rng, uint64(1_000), 99_999, 100_000, 100_001, 500_000, 1_000_000, 4_999_999, 5_000_000, 5_000_001, 40_000_000)
 		q.limit = pick(rng, int64(0), 1, -1, 100, 2000, 10_000, 1_000_000, 1<<62, -(1 << 62))
 		// one deviation in roughly half of the requests
-		switch rng.Intn(24) {
+		dev := rng.Intn(24)
+		if k == 1 {
+			dev = 1 // the second request of every world carries an extreme amount
+		}
+		switch dev {
 		case 0:
 			q.version = pick(rng, uint8(0), 1, 6, 8, 255)
 			q.desc = append(q.desc, "version")
 		case 1:
-			q.amount = pick(rng, uint64(0), 1, 1<<63, 1<<63/1000, 18446744073709551, 18446744073709552, 18446744073709553, 1<<64-1)
+			// incl. amounts whose msat value wraps around 2^64 to 384 msat, ~1 000 sat, ~100 000 sat, ~2 000 000 sat
+			q.amount = pick(rng, uint64(0), 1, 1<<63, 1<<63/1000, 18446744073709551, 18446744073709552, 18446744073709553, 1<<64-1,
+				18446744073709552+1000, 18446744073709552+100_000, 18446744073709552+100_000, 18446744073709552+2_000_000)
 			q.desc = append(q.desc, "amount-extreme")
 		case 2:
 			q.asset = pick(rng, hx(append([]byte{1}, attackerAsset...)), hx(attackerAsset), hx(randBytes(34)), "zz")
